@@ -1824,7 +1824,8 @@ impl World for KeyWorld {
                     1 => ctx.stats.bump("fault.clock_tick"),
                     _ => ctx.stats.bump("fault.clock_jump"),
                 }
-                if self.model.values().any(|e| e.exp == self.now) && dt > 0 {
+                // (reach counter only; not on bulk-size models, where the scan per tick is quadratic)
+                if dt > 0 && self.model.len() <= 5000 && self.model.values().any(|e| e.exp == self.now) {
                     ctx.stats.bump("fault.clock_lands_on_expiration");
                 }
                 ctx.cb_counts.push(0);
